@@ -149,7 +149,8 @@ def work(args):
             kind = KINDS[(j // 32) % 8] if R.random() < 0.5 else R.choice(KINDS)
             frm = R.choice(FRAMES)
             for _ in range(50):
-                o = tuple(F(R.randint(-24, 24), 8) for _ in range(3))
+                # Points / Vectors over the whole lattice |x| <= 8 (a tolerance that scaled with the coordinate would show there)
+                o = tuple(F(R.randint(-64, 64), 8) for _ in range(3)) if kind in ('P', 'V') else tuple(F(R.randint(-24, 24), 8) for _ in range(3))
                 if all(boundary_ok(q, sig) for q in hashed_quantities(kind, o, frm)):
                     break
             else:
